@@ -10,7 +10,8 @@
    check_case codes: 0 ok; 1 model trace <> observed trace (or ParseID model mismatch);
    2 final name exposed incomplete at some prefix / Save succeeded but final not complete at the end;
    3 final name bound before its data was fsynced, or directory not fsynced after the rename;
-   4 a name other than the final one parses as an ID at some prefix. *)
+   4 a name other than the final one parses as an ID at some prefix;
+   5 a failed Save left a temporary file behind. *)
 From Restic Require Import Base.Prelude.
 
 Module C36m.
@@ -26,7 +27,9 @@ Inductive sysop :=
 | SRename (d1 : N) (n1 : bytes) (d2 : N) (n2 : bytes)
 | SChmod (dir : N) (name : bytes)
 | SUnlink (dir : N) (name : bytes)
-| SOther (k : N).                                   (* a syscall on a tracked path/fd the model does not know *)
+| SOther (k : N)                                    (* a syscall on a tracked path/fd the model does not know *)
+| SFail (k : N).                                    (* a FAILED syscall on a tracked path/fd (no effect): 1 open, 2 write,
+                                                       3 fsync, 4 rename, 5 chmod, 6 unlink/rmdir, 7 fallocate, 8 mkdir, 9 other *)
 
 Record inode := mkino { i_size : N; i_written : N; i_bad : bool; i_dirty : bool }.
 Inductive fdt := FFile (ino : N) (off : N) | FDir (dir : N).
@@ -119,6 +122,7 @@ Definition step (s : fs) (o : sysop) : fs :=
   | SUnlink d n =>
       mkfs (inodes s) (aremove key_eqb (d, n) (dents s)) (fds s) (next s) (undirty d (synced_dirs s)) (unknown s)
   | SOther _ => mkfs (inodes s) (dents s) (fds s) (next s) (synced_dirs s) true
+  | SFail _ => s
   end.
 
 Fixpoint run (s : fs) (t : list sysop) : fs :=
@@ -178,12 +182,36 @@ Record params := mkparams {
 }.
 
 Definition local_save (g : target) (p : params) : list sysop :=
-  (if p_mkdir p then [SMkdir (t_dir g)] else []) ++
+  (if p_mkdir p then [SFail 1; SMkdir (t_dir g)] else []) ++   (* first CreateTemp fails: ENOENT *)
   [SCreate (t_dir g) (p_tmp p) (p_fd p)] ++
   (if N.ltb 0 (t_total g) then [SFalloc (p_fd p) (t_total g)] else []) ++
   map (SWrite (p_fd p)) (p_chunks p) ++
   [SFsync (p_fd p); SClose (p_fd p); SRename (t_dir g) (p_tmp p) (t_dir g) (t_name g);
    SOpenDir (t_dir g) (p_dfd p); SFsync (p_dfd p); SClose (p_dfd p); SChmod (t_dir g) (t_name g)].
+
+(* error paths of Save before the rename: the failing syscall, then the deferred cleanup
+   (f.Close(); os.Remove(f.Name())).  After a failed rename the file is already closed (the second
+   Close of an *os.File issues no syscall). *)
+Inductive failpoint :=
+| FPWrite (fallocfail : bool)   (* a write fails after the chunks p_chunks were written *)
+| FPFsync
+| FPRename.
+
+Definition local_save_fail (g : target) (p : params) (fp : failpoint) : list sysop :=
+  (if p_mkdir p then [SFail 1; SMkdir (t_dir g)] else []) ++
+  [SCreate (t_dir g) (p_tmp p) (p_fd p)] ++
+  (if N.ltb 0 (t_total g)
+   then [match fp with FPWrite true => SFail 7 | _ => SFalloc (p_fd p) (t_total g) end] else []) ++
+  map (SWrite (p_fd p)) (p_chunks p) ++
+  match fp with
+  | FPWrite _ => [SFail 2; SClose (p_fd p); SUnlink (t_dir g) (p_tmp p)]
+  | FPFsync => [SFail 3; SClose (p_fd p); SUnlink (t_dir g) (p_tmp p)]
+  | FPRename => [SFsync (p_fd p); SClose (p_fd p); SFail 4; SUnlink (t_dir g) (p_tmp p)]
+  end.
+
+(* after a failed Save: no entry other than the final name is left behind (clause 5) *)
+Definition fail_end_code (g : target) (s : fs) : nat :=
+  if forallb (fun e : (N * bytes) * N => key_eqb (fst e) (t_dir g, t_name g)) (dents s) then 0 else 5.
 
 (* ---------- cases ---------- *)
 Definition sysop_eqb (a b : sysop) : bool :=
@@ -200,6 +228,7 @@ Definition sysop_eqb (a b : sysop) : bool :=
   | SChmod d n, SChmod d' n' => andb (N.eqb d d') (bytes_eqb n n')
   | SUnlink d n, SUnlink d' n' => andb (N.eqb d d') (bytes_eqb n n')
   | SOther k, SOther k' => N.eqb k k'
+  | SFail k, SFail k' => N.eqb k k'
   | _, _ => false
   end.
 
@@ -208,6 +237,7 @@ Record case := mk {
   c_params : params;           (* environment choices read off the observed trace *)
   c_trace : list sysop;        (* observed syscalls of the Save (successful ones on tracked paths/fds) *)
   c_err : bool;                (* Save returned an error *)
+  c_fail : option failpoint;   (* which syscall the harness made fail (None: none, or one after the rename) *)
   c_parse : list (bytes * bool); (* names and whether the real restic.ParseID accepted them *)
   c_listing : list (list bytes * list bytes)
      (* directory contents (incl. stray temp files) and what repository.List reported for them, both sorted *)
@@ -218,7 +248,8 @@ Definition listing_ok (e : list bytes * list bytes) : bool :=
 
 Definition trace_code (c : case) : nat :=
   match run_code (c_target c) fs0 (c_trace c) with
-  | O => match (if c_err c then 0 else end_code (c_target c) (run fs0 (c_trace c))) with
+  | O => match (if c_err c then fail_end_code (c_target c) (run fs0 (c_trace c))
+                else end_code (c_target c) (run fs0 (c_trace c))) with
          | O => if forallb listing_ok (c_listing c) then 0 else 4
          | n => n
          end
@@ -230,7 +261,10 @@ Definition check_C36 (c : case) : bool := Nat.eqb (trace_code c) 0.
 Definition check_case (c : case) : nat :=
   match trace_code c with
   | O =>
-      if andb (orb (c_err c) (list_eqb sysop_eqb (c_trace c) (local_save (c_target c) (c_params c))))
+      if andb (match c_fail c with
+               | Some fp => list_eqb sysop_eqb (c_trace c) (local_save_fail (c_target c) (c_params c) fp)
+               | None => orb (c_err c) (list_eqb sysop_eqb (c_trace c) (local_save (c_target c) (c_params c)))
+               end)
               (andb (forallb (fun e : bytes * bool => Bool.eqb (is_id (fst e)) (snd e)) (c_parse c))
                     (forallb (fun e : list bytes * list bytes =>
                                 list_eqb bytes_eqb (filter is_id (fst e)) (snd e)) (c_listing c)))
